@@ -299,6 +299,89 @@ theorem complete_stable (p : Params) (all : List Ev) (done : Done) (hI : Inv .fi
     exact h1 x hx e
   · rfl
 
+/-! ## Map iteration order -/
+
+theorem maxEnd_perm {a b : Done} (h : a.Perm b) : maxEnd a = maxEnd b := by
+  induction h with
+  | nil => rfl
+  | cons x _ ih => simp [maxEnd, ih]
+  | swap x y l => simp only [maxEnd]; omega
+  | trans _ _ ih1 ih2 => exact ih1.trans ih2
+
+/-- all recorded confirmations carry the same signature -/
+def AllSame (done : Done) : Prop := ∀ a ∈ done, ∀ b ∈ done, a.sig = b.sig
+
+theorem all_iff_allSame (m : Msg) (rest : Done) :
+    rest.all (·.sig == m.sig) = true ↔ AllSame (m :: rest) := by
+  simp only [List.all_eq_true, beq_iff_eq, AllSame, List.mem_cons]
+  constructor
+  · intro h a ha b hb
+    have ea : a.sig = m.sig := by rcases ha with rfl | ha; rfl; exact h a ha
+    have eb : b.sig = m.sig := by rcases hb with rfl | hb; rfl; exact h b hb
+    rw [ea, eb]
+  · intro h x hx
+    exact h x (Or.inr hx) m (Or.inl rfl)
+
+/-- **check_perm**: `checkAllDone` iterates the Go map `doneSigners` in an unspecified order.
+    Whatever that order is (any permutation `done'` of the recorded confirmations), the result is
+    the same: complete or not, mismatch or not, the reported signature and the end block. -/
+theorem check_perm (v : Variant) (p : Params) {done done' : Done} (h : done.Perm done') :
+    check v p done' = check v p done := by
+  unfold check
+  rw [h.length_eq]
+  split
+  · rfl
+  · cases done with
+    | nil => rw [List.nil_perm.mp h]
+    | cons m rest =>
+      cases done' with
+      | nil => exact absurd h.length_eq (by simp)
+      | cons m' rest' =>
+        simp only
+        have hmem : ∀ x, x ∈ m :: rest ↔ x ∈ m' :: rest' := fun x => h.mem_iff
+        have hsame : AllSame (m' :: rest') ↔ AllSame (m :: rest) := by
+          unfold AllSame
+          constructor
+          · intro hh a ha b hb; exact hh a ((hmem a).1 ha) b ((hmem b).1 hb)
+          · intro hh a ha b hb; exact hh a ((hmem a).2 ha) b ((hmem b).2 hb)
+        by_cases hs : AllSame (m :: rest)
+        · have e1 : rest.all (·.sig == m.sig) = true := (all_iff_allSame m rest).2 hs
+          have e2 : rest'.all (·.sig == m'.sig) = true := (all_iff_allSame m' rest').2 (hsame.2 hs)
+          have esig : m'.sig = m.sig := hs m' ((hmem m').2 (by simp)) m (by simp)
+          rw [if_pos e2, if_pos e1, esig, maxEnd_perm h]
+        · have e1 : ¬ rest.all (·.sig == m.sig) = true := fun e => hs ((all_iff_allSame m rest).1 e)
+          have e2 : ¬ rest'.all (·.sig == m'.sig) = true :=
+            fun e => hs (hsame.1 ((all_iff_allSame m' rest').1 e))
+          rw [if_neg e2, if_neg e1]
+
+/-- the wait loop with an arbitrary iteration order at every tick: `ord` maps the recorded
+    confirmations to the order in which the map happens to be iterated -/
+def runWaitOrd (v : Variant) (p : Params) (ord : Done → Done) : Done → List Ev → Outcome × Done
+  | done, [] => (.timeout, done)
+  | done, .recv m :: rest => runWaitOrd v p ord (receive v p done m) rest
+  | done, .tick :: rest =>
+    match check v p (ord done) with
+    | some o => (o, done)
+    | none => runWaitOrd v p ord done rest
+
+/-- **runWait_order_independent**: for every iteration-order function that permutes the recorded
+    confirmations, the wait loop returns exactly what the arrival-order model returns — so all
+    theorems about `runWait` hold for the Go map. -/
+theorem runWait_order_independent (v : Variant) (p : Params) (ord : Done → Done)
+    (hord : ∀ d : Done, List.Perm d (ord d)) (done : Done) (evs : List Ev) :
+    runWaitOrd v p ord done evs = runWait v p done evs := by
+  induction evs generalizing done with
+  | nil => rfl
+  | cons e rest ih =>
+    cases e with
+    | recv m => simp only [runWaitOrd, runWait]; exact ih _
+    | tick =>
+      simp only [runWaitOrd, runWait]
+      rw [check_perm v p (hord done)]
+      cases check v p done with
+      | some o => rfl
+      | none => exact ih _
+
 /-! ## Monitor tie -/
 
 theorem length_le_of_nodup_subset : ∀ (l s : List Nat), l.Nodup → (∀ x ∈ l, x ∈ s) →
